@@ -12,7 +12,11 @@ use std::cell::Cell;
 use std::sync::atomic::{AtomicBool, AtomicU64, Ordering};
 use std::sync::{Mutex, OnceLock};
 
-pub const MAXT: usize = 8;
+/// most logical threads of one run (the crowd scenarios need more than 32 readers in one tree bin)
+pub const MAXT: usize = 40;
+/// the thread count the PRNG-driven strategy parameters were designed for (kept so that a seed
+/// still means the same run)
+pub const MAXT_CLASSIC: usize = 8;
 pub const CTRL: usize = MAXT;
 pub const NEV: usize = 32;
 
@@ -458,7 +462,7 @@ impl Inner {
                         // classic PCT drops to the lowest priority; every other time re-draw a
                         // random rank instead, which also reaches orders like "A pauses, B runs to
                         // completion, A resumes before C"
-                        prio[me] = if spin || self.rng.below(2) == 0 { *low } else { 1000 + self.rng.below(MAXT as u64 * 4) as u32 };
+                        prio[me] = if spin || self.rng.below(2) == 0 { *low } else { 1000 + self.rng.below(MAXT_CLASSIC as u64 * 4) as u32 };
                     }
                 }
                 let mut best = elig[0];
@@ -609,7 +613,7 @@ pub fn init() {
     }
     let s = Sched {
         inner: Mutex::new(Inner::new()),
-        jobs: Default::default(),
+        jobs: std::array::from_fn(|_| Mutex::new(None)),
     };
     let _ = SCHED.set(s);
     let _ = PARKERS[CTRL].thread.set(std::thread::current());
